@@ -49,7 +49,13 @@ var fragments = []struct{ name, text string }{
 	{"go-generate", "//go:generate echo hi\nvar GG$I int\n"},
 	{"grouped-consts-iota", "const (\nK$I = iota\nK$Ib\n)\n"},
 	{"no-trailing-newline", "var NT$I int"},
+	// sizes around the buffer sizes an implementation may use (1 KiB, 4 KiB, 64 KiB)
+	{"large-string-1500B", "var Big$I = \"" + strings.Repeat("x", 1500) + "\"\n"},
+	{"large-comment-5KiB", strings.Repeat("// "+strings.Repeat("c", 97)+"\n", 50) + "var AfterComment$I int\n"},
+	{"huge-decl-70KiB", "var Huge$I = []int{\n" + strings.Repeat("\t1, 2, 3, 4, 5, 6, 7, 8, 9, 10, 11, 12, 13, 14, 15, 16, 17, 18, 19, 20,\n", 1000) + "}\n"},
 }
+
+var routes = []string{"one Block of the concatenation", "one Render call per fragment", "ONE RenderT call with every fragment as a template argument", "ONE Render call of a Snippets list", "ONE Render call of Sprintf(%v%v..)"}
 
 var importSets = [][]string{
 	nil,
@@ -72,6 +78,22 @@ type Item struct {
 	Frags   []int `json:"fragments"`
 	Imports int   `json:"import_set"`
 	Second  []int `json:"second_run_fragments,omitempty"` // history: a second run renders this instead
+	Route   int   `json:"route_to_the_writer,omitempty"`  // index into routes
+}
+
+func fragParts(idx []int) []string {
+	var out []string
+	for pos, f := range idx {
+		out = append(out, strings.ReplaceAll(fragments[f].text, "$I", strconv.Itoa(pos)))
+	}
+	return out
+}
+
+func actionFor(frags []int, route int, imports []string) pipe.Action {
+	if route == 0 {
+		return pipe.Action{Render: fragText(frags), Imports: imports}
+	}
+	return pipe.Action{Parts: fragParts(frags), Route: route, Imports: imports}
 }
 
 type Case struct {
@@ -292,10 +314,10 @@ func checkBatch(c *core.Ctx, mi int, items []Item) {
 		// directory name differs from the package name on purpose
 		t["p/"+name+"-dir/x.go"] = "package " + name + "\n\ntype T struct{}\n"
 		key := m.path + "/p/" + name + "-dir.T"
-		byType[key] = pipe.Action{Render: fragText(it.Frags), Imports: resolveImports(importSets[it.Imports], m)}
+		byType[key] = actionFor(it.Frags, it.Route, resolveImports(importSets[it.Imports], m))
 		if it.Second != nil {
 			second = true
-			byType2[key] = pipe.Action{Render: fragText(it.Second), Imports: resolveImports(importSets[it.Imports], m)}
+			byType2[key] = actionFor(it.Second, it.Route, resolveImports(importSets[it.Imports], m))
 		} else {
 			byType2[key] = byType[key]
 		}
@@ -341,6 +363,9 @@ func checkBatch(c *core.Ctx, mi int, items []Item) {
 			name := fmt.Sprintf("k%05d", i)
 			frags := it.Frags
 			what := "first generation"
+			if it.Route != 0 {
+				what = "first generation (route: " + routes[it.Route] + ")"
+			}
 			if ri == 1 {
 				if it.Second == nil {
 					continue
@@ -383,10 +408,13 @@ func run(c *core.Ctx) {
 	}
 	c.Bound("fragment_menu", fn)
 	c.Bound("import_sets", importSets)
+	c.Bound("routes_to_the_writer", routes)
 	c.Bound("modules", modules2())
 	maxSeq := c.Pick(2, 3)
 	c.Bound("max_fragments_per_file", maxSeq)
-	nf := len(fragments)
+	// the last menu entry (70 KiB) is expensive to format: it only takes part in dedicated sequences
+	nf := len(fragments) - 1
+	huge := len(fragments) - 1
 	total := 0
 	for mi := range modules {
 		var items []Item
@@ -416,6 +444,20 @@ func run(c *core.Ctx) {
 			}
 		}
 		rec(nil)
+		// the other routes by which the same fragments reach the writer (first module, import set 0)
+		if mi == 0 {
+			for _, seq := range [][]int{{huge}, {0, huge}, {huge, 0}, {6, huge, 3}, {16, huge}, {huge, huge}} {
+				items = append(items, Item{Frags: seq})
+			}
+			n := len(items)
+			for _, it := range items[:n] {
+				if it.Imports == 0 && (len(it.Frags) <= 2 || it.Frags[1] == huge) {
+					for r := 1; r < len(routes); r++ {
+						items = append(items, Item{Frags: it.Frags, Route: r})
+					}
+				}
+			}
+		}
 		// import sets alone
 		for s := 1; s < len(importSets); s++ {
 			items = append(items, Item{Imports: s})
